@@ -360,6 +360,10 @@ func evalToken(line string) (out string, rd string) {
 		return tokRoundTrip(f[1], f[2], f[3]), line
 	case "go.tok.concurrent":
 		return tokConcurrent(f[1], f[2]), line
+	case "go.tok.sharedargs":
+		var n int
+		fmt.Sscan(f[1], &n)
+		return tokSharedArgs(n), line
 	case "go.cmd.history":
 		return cmdHistory(), line
 	case "go.ctor.wf":
@@ -612,13 +616,18 @@ func runTokenStream(c *ctx) error {
 	// the same two checks again under the round-trip class: "seals but does not unseal" is a C07 matter as well
 	c.emit("go.lit.nodes 1", "token.roundtrip-nodes", true, "literal-nodes")
 	c.emit("go.ctor.wf 1", "token.roundtrip-ctor", true, "ctor-wellformed")
+	// several tokens built from ONE argument set (n keys) handed to WithArguments, each with an argument of its own
+	// added afterwards, the shared set growing in between: each token seals and unseals with exactly its own arguments
+	for n := 0; n <= 9; n++ {
+		c.emit(fmt.Sprintf("go.tok.sharedargs %d", n), "token.roundtrip-shared", true, "sharedargs")
+	}
 	// (roundtrip) constructor-built tokens
 	rtAlgs := []string{"ed25519", "secp256k1", "p256", "p384", "p521", "rsa"}
 	masks := 128
 	for _, alg := range rtAlgs {
 		for _, kind := range []string{"dlg", "inv"} {
 			// bits 7–9 (early instants, audience = subject, integral floats): a few masks per algorithm
-			for _, m := range []int{128, 129, 256, 257, 384, 128 + 16, 256 + 8, 512, 513, 512 + 2 + 4, 1024, 1025, 1026, 1024 + 3, 2048, 2049, 4096, 4097, 4096 + 2} {
+			for _, m := range []int{128, 129, 256, 257, 384, 128 + 16, 256 + 8, 512, 513, 512 + 2 + 4, 1024, 1025, 1026, 1024 + 3, 2048, 2049, 4096, 4097, 4096 + 2, 8192, 8193, 8192 + 2, 8192 + 1 + 2 + 4} {
 				if !c.thoro && alg != "ed25519" && alg != "p256" {
 					continue
 				}
@@ -882,7 +891,10 @@ func specialValues(field string) []string {
 	case "iss", "aud", "sub":
 		return []string{str("did:key:"), str("did:web:example.com"), str("did:key:z6Mk"), str("did:key:zAkb"), str("key"), str("did:key:z" + "1111")}
 	case "cmd":
-		return []string{str(""), str("/"), str("foo"), str("/foo/"), str("/Foo"), str("//"), str("/fÖo"), str("/a//b")}
+		return []string{str(""), str("/"), str("foo"), str("/foo/"), str("/Foo"), str("//"), str("/fÖo"), str("/a//b"),
+			// cased characters outside category Lu (title-case digraphs, Roman numerals, circled capitals), their lowercase
+			// forms, and text that is not UTF-8
+			str("/crud/ǅ"), str("/crud/ǆ"), str("/Ⅰ/create"), str("/ⅰ/create"), str("/store/Ⓐdd"), str("/store/ⓐdd"), str("/ᾈ"), str("/ᾀ"), str("/a\xff"), str("/\xc3"), str("/ς/σ")}
 	case "pol":
 		return []string{"l()", "l(l())", "l(l(" + str("==") + "," + str("a") + ",i1))", "l(l(" + str("like") + "," + str(".a") + "," + str("a\\") + "))",
 			"l(l(" + str("==") + "," + str(".a") + ",i9007199254740992))",
@@ -953,6 +965,12 @@ func tokRoundTrip(kind, alg, ms string) string {
 		}
 		if opt(7) {
 			opts = append(opts, delegation.WithNotBefore(time.Unix(9007199254740991, 0)))
+		}
+		if opt(13) {
+			// links and bytes wherever a value may stand: metadata (top level and nested) and policy literals
+			lk := independentCid([]byte("a link in a value position"))
+			opts = append(opts, delegation.WithMeta("lnk", lk), delegation.WithMeta("nest", map[string]any{"l": lk, "ll": []any{lk, "s"}}), delegation.WithMeta("byt", []byte{1, 2, 3}))
+			pol = append(pol, policy.MustConstruct(policy.Equal(".c", basicLink(lk)), policy.Any(".cs", policy.Equal(".", basicLink(lk))), policy.Equal(".bb", basicBytes([]byte("abc"))))...)
 		}
 		// (bit 10, instants exactly at the Unix epoch, is for invocations: the delegation constructors refuse bounds in the past)
 		var t *delegation.Token
@@ -1046,6 +1064,10 @@ func tokRoundTrip(kind, alg, ms string) string {
 			_ = more.Add("zz", "new")
 			opts = append(opts, invocation.WithArgument("k1", int64(1)), invocation.WithArgument("m", "mid"), invocation.WithArgument("z9", true),
 				invocation.WithArguments(more), invocation.WithArguments(more))
+		}
+		if opt(13) {
+			lk := independentCid([]byte("a link in a value position"))
+			opts = append(opts, invocation.WithMeta("lnk", lk), invocation.WithArgument("lnk", lk), invocation.WithArgument("nest", []any{lk, map[string]any{"c": lk}}))
 		}
 		if opt(8) {
 			// an audience naming the subject itself (after any other audience option, so that it is the one that counts)
@@ -1158,6 +1180,68 @@ func tokRoundTrip(kind, alg, ms string) string {
 	}
 	if len(msgs) > 0 {
 		return msgs[0]
+	}
+	return "ok"
+}
+
+// tokSharedArgs: three invocations built one after the other from the same *args.Args (n keys) passed to WithArguments as the
+// first argument option, each followed by WithArgument with a key of its own; then the caller adds to the shared set. Every
+// token must seal, unseal and carry the shared keys plus its own key — whatever was built from the same set later.
+func tokSharedArgs(n int) (out string) {
+	defer func() {
+		if r := recover(); r != nil {
+			out = "PANIC " + strings.ReplaceAll(fmt.Sprint(r), "\n", " ")
+		}
+	}()
+	k, aud := keyFor("ed25519", 1), keyFor("ed25519", 2)
+	common := args.New()
+	want := map[string]int64{}
+	for i := 0; i < n; i++ {
+		key := fmt.Sprintf("c%d", i)
+		if err := common.Add(key, int64(100+i)); err != nil {
+			return "harness: " + err.Error()
+		}
+		want[key] = int64(100 + i)
+	}
+	var toks []*invocation.Token
+	for j := 0; j < 3; j++ {
+		t, err := invocation.New(k.did, aud.did, command.MustParse("/shared/args"), nil,
+			invocation.WithArguments(common), invocation.WithArgument(fmt.Sprintf("own%d", j), int64(j)))
+		if err != nil {
+			return "constructor: " + err.Error()
+		}
+		toks = append(toks, t)
+	}
+	_ = common.Add("later", int64(-1))
+	for j, t := range toks {
+		sealed, _, err := t.ToSealed(k.priv)
+		if err != nil {
+			return fmt.Sprintf("token %d: ToSealed: %v", j, err)
+		}
+		back, _, err := invocation.FromSealed(sealed)
+		if err != nil {
+			return fmt.Sprintf("token %d: FromSealed rejects a token it sealed: %v", j, err)
+		}
+		for name, tk := range map[string]*invocation.Token{"built": t, "decoded": back} {
+			got := map[string]int64{}
+			for key, v := range tk.Arguments().Iter() {
+				if v == nil {
+					return fmt.Sprintf("token %d (%s): argument %q has no value", j, name, key)
+				}
+				i, err := v.AsInt()
+				if err != nil {
+					return fmt.Sprintf("token %d (%s): argument %q: %v", j, name, key, err)
+				}
+				got[key] = i
+			}
+			exp := map[string]int64{fmt.Sprintf("own%d", j): int64(j)}
+			for a, b := range want {
+				exp[a] = b
+			}
+			if fmt.Sprint(got) != fmt.Sprint(exp) {
+				return fmt.Sprintf("token %d (%s) carries %v, built with %v", j, name, got, exp)
+			}
+		}
 	}
 	return "ok"
 }
